@@ -78,6 +78,9 @@ ChangeZoomOne(s, h, v) ==
 
 ChangeZoom(S, h, v) == UNION {ChangeZoomOne(s, h, v) : s \in S}
 
+\* how many voxels the refinement of one voxel to (h, v) has (no enumeration)
+ZoomCountOne(s, h, v) == Pow2(2 * MaxOf(0, h - s[1])) * Pow2(MaxOf(0, v - s[4]))
+
 \* the floor ancestor of s at coarser-or-equal zooms (h <= s.h, v <= s.v)
 Ancestor(s, h, v) ==
   <<h, FloorDivPow2(s[2], s[1] - h), FloorDivPow2(s[3], s[1] - h),
